@@ -752,14 +752,16 @@ class Prop:
             'attributes, label stacks of 1-40 labels, attribute-length / prefix-length / next-hop-length sweeps) plus a malformed stream and '
             'arbitrary fragmentation; a case is non-trivial when a decoder returns a message or a protocol error (not merely "need more"); '
             'distinct = distinct (decoder, AS width, sequence of message kinds with their attribute codes and error attributes, error codes); '
-            'kind "fuzz" cases (families whose NLRI decoders are not modelled) are run on the implementation only and judged by the Spec oracle')
+            'every case is compared with the model (no family is oracle-only any more); the classes enumerated on every run are tagged class_* in the input distribution, the random ones class_random_*')
     exhaustive = {'quick': False, 'thorough': False}
-    trusted_base = ['the NLRI decoders of MUP, flowspec, flowspec-VPN, BGP-LS, SR-policy, EVPN and RTC are a Section variable with the contract '
-                    '"a decoded NLRI takes at least one byte, or the decoder fails" (it cannot panic by type); the contract is exercised by fuzzing '
-                    'the real decoders through the harness (random and seeded from the repository\'s own wire test vectors), not proved',
+    trusted_base = ['every NLRI family the crate can negotiate is in the Coq model since round 3 (IPv4/IPv6 unicast+multicast, labeled, VPN, EVPN 1-5, RTC, '
+                    'SR policy, MUP 1-4, flowspec and flowspec-VPN, BGP-LS); the decoder argument [other] of the model is never reached (Proofs/WireMsg.v try_parse_other)',
+                    'NLRI values are observed through the crate\'s own encode() for EVPN, RTC, SR policy and MUP (the model gives the bytes the decoder consumed, '
+                    'which is what encode() writes back), structurally for flowspec and BGP-LS',
                     'prefix_sid.rs and tunnel_encap.rs are not reached by try_parse (the receive path keeps those attributes as bytes) and are not covered',
                     'the marker (first 16 octets of the BGP header) is not checked by the code, the model or the property',
-                    'String::from_utf8 in the FQDN capability is modelled by the Unicode well-formedness table (Model/Wire.v utf8_valid_fuel)']
+                    'String::from_utf8 in the FQDN capability is modelled by the Unicode well-formedness table (Model/Wire.v utf8_valid_fuel)',
+                    'the model is evaluated once per case for both build profiles (Proofs/WireOpen.v try_parse_profile_indep); the harness still runs the debug and the release build']
     assumptions = ['bytes are 0..255 (the harness cannot supply anything else)',
                    'the receive loop is the one of PeerSession::run_select / tokio_util FramedRead: append what was read, call the decoder until it '
                    'answers "need more" or fails (Model/Stream.v)']
@@ -806,7 +808,7 @@ class Prop:
     def gen_cases(self, rng, tier):
         q = tier == 'quick'
         from gen import c03_enum
-        return c03_enum.enum_cases() + gen_bfd(rng, 300 if q else 3000) + gen_rtr(rng, 600 if q else 6000) + gen_bgp(rng, 2500 if q else 15000, tier) + gen_fuzz(rng, 1500 if q else 8000) + gen_fuzz_seeded(rng, 2500 if q else 15000) + gen_fuzz_sweep(rng, tier)
+        return c03_enum.enum_cases() + gen_bfd(rng, 300 if q else 2000) + gen_rtr(rng, 600 if q else 3000) + gen_bgp(rng, 2500 if q else 5000, tier) + gen_fuzz(rng, 1500 if q else 2500) + gen_fuzz_seeded(rng, 2500 if q else 5000) + gen_fuzz_sweep(rng, tier)
 
     # ---- running
     def run_impl(self, cases, tier):
